@@ -201,36 +201,42 @@ def st26Step (s : St) : St :=
     { s with speed := sp, st26 := if (s.st26 / 0x10000) % 2 = 1 then s.st26 - 0x10000 else s.st26 + 0x10000 }
   else s
 
-/-- Values left in the effect-owned variables by `read_row` (stage A) or by
-`inject_event` + `play_channel` (stage B). -/
+/-- What `read_row` (stage A) or `inject_event` + `play_channel` (stage B) wrote into the
+effect-owned variables: `none` = left untouched, `some v` = overwritten with `v`. -/
 structure Eff where
-  pbreak : Int
-  jump : Int
-  delay : Int
-  jumpline : Int
-  loopDest : Int
-  rowdelay : Int
-  speed : Int
-  bpm : Int
-  gvol : Int
-  st26 : Int
+  pbreak : Option Int := none
+  jump : Option Int := none
+  delay : Option Int := none
+  jumpline : Option Int := none
+  loopDest : Option Int := none
+  rowdelay : Option Int := none
+  speed : Option Int := none
+  bpm : Option Int := none
+  gvol : Option Int := none
+  st26 : Option Int := none
   deriving Repr, Inhabited
 
 def applyEff (s : St) (e : Eff) : St :=
-  { s with pbreak := e.pbreak, jump := e.jump, delay := e.delay, jumpline := e.jumpline,
-           loopDest := e.loopDest, rowdelay := e.rowdelay, speed := e.speed, bpm := e.bpm,
-           gvol := e.gvol, st26 := e.st26 }
+  { s with pbreak := e.pbreak.getD s.pbreak, jump := e.jump.getD s.jump, delay := e.delay.getD s.delay,
+           jumpline := e.jumpline.getD s.jumpline, loopDest := e.loopDest.getD s.loopDest,
+           rowdelay := e.rowdelay.getD s.rowdelay, speed := e.speed.getD s.speed, bpm := e.bpm.getD s.bpm,
+           gvol := e.gvol.getD s.gvol, st26 := e.st26.getD s.st26 }
 
 /-- the identity effect: leaves every variable as it is -/
-def noEff (s : St) : Eff :=
-  { pbreak := s.pbreak, jump := s.jump, delay := s.delay, jumpline := s.jumpline, loopDest := s.loopDest,
-    rowdelay := s.rowdelay, speed := s.speed, bpm := s.bpm, gvol := s.gvol, st26 := s.st26 }
+def noEff : Eff := {}
+
+/-- The deterministic kernel part of one `xmp_play_frame`: reposition or tick/row advance, then
+`check_end_of_module` on the first tick of a row. -/
+def kernelStep (m : SeqMod) (s : St) : Res :=
+  match kernelPre m s with
+  | .ok s1 => .ok (if s1.frame = 0 then checkEnd m s1 else s1)
+  | r => r
 
 /-- One successful/failed `xmp_play_frame`. -/
 def playFrame (m : SeqMod) (s : St) (eA eB : Eff) : Res :=
-  match kernelPre m s with
+  match kernelStep m s with
   | .ok s1 =>
-    let s2 := if s1.frame = 0 then st26Step (applyEff (checkEnd m s1) eA) else s1
+    let s2 := if s1.frame = 0 then st26Step (applyEff s1 eA) else s1
     let s3 := applyEff s2 eB
     .ok { s3 with ftBpm := s3.bpm }
   | r => r
@@ -347,5 +353,26 @@ def frameInfo (m : SeqMod) (s : St) : Info :=
   let pattern := m.xo pos
   { pos := pos, pattern := pattern, numRows := if pattern < m.pat then m.rowsOf pattern else 0,
     row := s.row, speed := s.speed, bpm := s.bpm, loopCount := s.loopCount, sequence := s.sequence }
+
+/-! ## Well-formedness of the module data the kernel reads (evaluated by the driver on every
+module the harness plays: a monitored assumption of the C16 theorems). -/
+
+/-- `p->st26_speed` is 0 or holds two non-zero speed bytes (bit 16 = which one is next). -/
+def st26ok (v : Int) : Bool :=
+  v == 0 || (decide (0 < v) && decide (v < 0x20000) && decide (v % 256 ≠ 0) && decide ((v / 256) % 256 ≠ 0))
+
+def allBelow (n : Nat) (f : Int → Bool) : Bool := (List.range n).all fun i => f (i : Int)
+
+def wfB (m : SeqMod) : Bool :=
+  decide (0 < m.len) && decide (m.len ≤ 256) && decide (0 ≤ m.pat) && decide (m.pat ≤ 256) && decide (0 ≤ m.rst) && decide (m.rst < m.len) &&
+  decide (m.xxo.length = 256) && decide (m.seqCtl.length = 256) && decide (m.rows.length = m.pat.toNat) &&
+  decide (1 ≤ m.numSeq) && decide (m.numSeq ≤ 255) &&
+  allBelow 256 (fun o => decide (0 ≤ m.xo o) && decide (m.xo o ≤ 255)) &&
+  allBelow m.pat.toNat (fun p => decide (1 ≤ m.rowsOf p)) &&
+  allBelow m.numSeq.toNat (fun s => decide (0 ≤ m.entryOf s) && decide (m.entryOf s < m.len)) &&
+  allBelow m.len.toNat (fun o => geti m.seqCtl o == 0xff || (decide (0 ≤ geti m.seqCtl o) && decide (geti m.seqCtl o < m.numSeq))) &&
+  allBelow m.len.toNat (fun o => decide (m.xo o ≥ m.pat) ||
+    (decide (1 ≤ geti m.oBpm o) && decide (0 ≤ geti m.oSpeed o) && decide (geti m.oSpeed o ≤ 255) && st26ok (geti m.oSt26 o))) &&
+  (decide (skipInvalid m 257 0 ≥ m.len) || decide (1 ≤ geti m.oSpeed (skipInvalid m 257 0)))
 
 end Xmp.Seq
